@@ -70,6 +70,7 @@ def run(tier, replay=None):
                 ("keep_duplicates", 4, None)]        # the smallest shipped library in which check_results un-merges functions
         libs += [("verif_sub%d" % k, 4, subs[k]) for k in rng.sample(range(len(subs)), 2)]
         libs += [("verif_cube", 4, bases.USER_STYLE["verif_cube"])]
+        libs += [("verif_sq", 5, [["x", "a"], ["square"], ["+"]])]       # smallest library with a sum of two even powers of different parameters
     else:
         libs = [(k, n, None) for k in bases.SHIPPED for n in (1, 2, 3, 4)]
         libs += [("core_maths", 5, None), ("core_maths", 6, None), ("ext_maths", 5, None), ("base_e_maths", 5, None), ("osc_maths", 5, None)]
